@@ -1,5 +1,5 @@
 """C20 — freeing a reader releases everything, on any call history or allocation failure."""
-import sys
+import sys, re
 from vlib.core import Case
 from vlib import core, archgen as A, streams as S
 import check as CK
@@ -76,25 +76,77 @@ def gen_cases(ctx, n):
             else range(1, len(toks) + 1)
         for cut in cuts:
             tags = {"fault-free", kind, "extract" if any(t.startswith("x") for t in toks[:cut]) else "noextract"}
-            out.append(Case(A.rdr_op(skind, pol, toks[:cut], d), judge=judge, tags=tags))
+            out.append(Case(A.rdr_op(skind, pol, toks[:cut], d), judge=judge, tags=tags, note=("ff", i) if cut == len(toks) else None))
         ks = range(0, 40) if ctx.tier == "thorough" else sorted(set(r.randrange(0, 30) for _ in range(5)))
         for kk in ks:
-            out.append(Case(A.rdr_op(skind, pol, toks, d, fail_at=kk), judge=judge, tags={"alloc-fail", kind}, note="inj"))
+            out.append(Case(A.rdr_op(skind, pol, toks, d, fail_at=kk), judge=judge, tags={"alloc-fail", kind, "c-only"}, note=("inj", i)))
     return out
+
+
+def corpus_cases(ctx):
+    """minimised past failures: (kind, policy, fail_at, history, archive) lines; each is run with and without the injected failure"""
+    import os
+    out = []
+    d = os.path.join(core.VERIF, "corpus", "C20")
+    if os.path.isdir(d):
+        n = 0
+        for f in sorted(os.listdir(d)):
+            for line in open(os.path.join(d, f)):
+                line = line.strip()
+                if not line or line.startswith("#"):
+                    continue
+                kind, pol, k, hist, hx = line.split()
+                gid = 10 ** 6 + n
+                n += 1
+                data = bytes.fromhex(hx)
+                out.append(Case(A.rdr_op(kind, pol, hist.split(";"), data), judge=judge, tags={"corpus", "fault-free"}, note=("ff", gid)))
+                out.append(Case(A.rdr_op(kind, pol, hist.split(";"), data, fail_at=int(k)), judge=judge,
+                                tags={"corpus", "alloc-fail", "c-only"}, note=("inj", gid)))
+    return out
+
+
+FAILURE_TOKENS = ("END", "x0", "c0", "-", "r0")
+
+
+def judge_groups(cases, c_outs):
+    """'the affected call reports failure or end-of-archive': a run with an injected allocation failure must be the fault-free run of
+    the same history up to some call, and from there on may differ only by reporting failure - in particular every header it returns
+    must be exactly the header the fault-free run returns at that call (not the member with a string missing)"""
+    ff = {}
+    for i, c in enumerate(cases):
+        if isinstance(c.note, tuple) and c.note[0] == "ff":
+            ff[c.note[1]] = c_outs[i]
+    why = {}
+    for i, c in enumerate(cases):
+        if not (isinstance(c.note, tuple) and c.note[0] == "inj") or c.note[1] not in ff:
+            continue
+        a = c_outs[i].split(" live=")[0].split(";")
+        b = ff[c.note[1]].split(" live=")[0].split(";")
+        if c_outs[i].startswith(("CRASH", "TIMEOUT")) or ff[c.note[1]].startswith(("CRASH", "TIMEOUT")) or len(a) != len(b):
+            continue
+        diverged = False
+        for j, (x, y) in enumerate(zip(a, b)):
+            if x == y and not diverged:
+                continue
+            diverged = True
+            # (H1 = an entry the reader re-presents on its own - a directory whose metadata is due, a deferred link: these still
+            # come after the archive has been reported as ended, which is what the failing call does)
+            if x.startswith("H0") and x != y:
+                why[i] = ("with one allocation failing, call %d returned the header [%s] where the archive holds [%s]: the failure was not "
+                          "reported (a string of the header is silently missing)" % (j + 1, x[:80], y[:80]))
+                break
+    return why
 
 
 def evaluate(ctx, env, cases, with_model):
     P = sys.modules[__name__]
-    ff = [c for c in cases if c.note != "inj"]
-    inj = [c for c in cases if c.note == "inj"]
-    conc, corr, st = CK.evaluate(ctx, P, env, ff, with_model)
-    c2, _, st2 = CK.evaluate(ctx, P, env, inj, False)
+    conc, corr, st = CK.evaluate(ctx, P, env, cases, with_model)      # injected cases carry the tag c-only: judged on the C alone
     st["evaluations"] = len(cases)
-    return conc + c2, corr, st
+    return conc, corr, st
 
 
 def nontrivial(c):
-    return "extract" in c.tags or c.note == "inj"
+    return "extract" in c.tags or (isinstance(c.note, tuple) and c.note[0] == "inj")
 
 
 def signature(case, c_out, why):
@@ -102,7 +154,9 @@ def signature(case, c_out, why):
     m = re.match(r"CRASH (\S+)", c_out)
     if m:
         return "crash:" + m.group(1)
-    return "leak" + (":alloc-fail" if case.note == "inj" else "")
+    if "allocation failing" in why:
+        return "alloc-failure-not-reported"
+    return "leak" + (":alloc-fail" if isinstance(case.note, tuple) and case.note[0] == "inj" else "")
 
 
 LEVEL_TEXT = ("Lean theorem over the reader model's allocation ledger: after any legal history, freeing the reader leaves no live header, "
